@@ -211,6 +211,12 @@ def raises(ctx):
             d = dotted(node.func)
             if d == 'zip' and any(k.arg == 'strict' and not (isinstance(k.value, ast.Constant) and not k.value.value) for k in node.keywords):
                 return 'zip(..., strict=True) (ValueError when the sequences differ in length)'
+            if d == 'delattr' and len(node.args) == 2:
+                return 'delattr() of an attribute that may be absent (AttributeError)'
+        if isinstance(node, ast.Subscript) and isinstance(node.ctx, ast.Load) and isinstance(node.slice, ast.Constant) and isinstance(node.slice.value, int) and \
+                isinstance(node.value, ast.Call) and isinstance(node.value.func, ast.Attribute) and node.value.func.attr in ('split', 'rsplit', 'splitlines') and \
+                (not node.value.args or (isinstance(node.value.args[0], ast.Constant) and node.value.args[0].value is None)):
+            return 'an element of str.split() without separator (IndexError: the list is empty for blank text)'
         return None
     n_impl = 0
     for q in sorted(reach):
@@ -224,10 +230,32 @@ def raises(ctx):
                     r.ok('%s: zip truncates silently' % q, node, construct=q + '|zip|' + src(node)[:40])
                 continue
             cur, guarded = node, False
-            while getattr(cur, '_parent', None) is not None and cur is not cg.funcs[q]:
-                if isinstance(cur._parent, ast.Try) and cur in cur._parent.body and cur._parent.handlers:
+            parents_ = {}
+            for x_ in ast.walk(cg.funcs[q]):
+                for ch_ in ast.iter_child_nodes(x_):
+                    parents_[id(ch_)] = x_
+            while parents_.get(id(cur)) is not None and cur is not cg.funcs[q]:
+                par_ = parents_[id(cur)]
+                if isinstance(par_, ast.Try) and cur in par_.body and par_.handlers:
                     guarded = True
-                cur = cur._parent
+                if isinstance(par_, ast.If) and cur in par_.body and isinstance(node, ast.Call) and dotted(node.func) == 'delattr':
+                    # if <name> in <obj>.__dict__ / hasattr(<obj>, <name>): the attribute is there
+                    o_, a_ = src(node.args[0]), src(node.args[1])
+                    tests_ = par_.test.values if isinstance(par_.test, ast.BoolOp) and isinstance(par_.test.op, ast.And) else [par_.test]
+                    if any(src(t_) in ('%s in %s.__dict__' % (a_, o_), 'hasattr(%s, %s)' % (o_, a_), '%s in vars(%s)' % (a_, o_)) for t_ in tests_):
+                        guarded = True
+                if isinstance(node, ast.Call) and dotted(node.func) == 'delattr' and len(node.args) == 2:
+                    # guard form: `if <name> not in <obj>.__dict__: continue` before the statement in the same block
+                    o_, a_ = src(node.args[0]), src(node.args[1])
+                    for fld_ in ('body', 'orelse', 'finalbody'):
+                        blk_ = getattr(par_, fld_, None)
+                        if isinstance(blk_, list) and cur in blk_:
+                            for prev_ in blk_[:blk_.index(cur)]:
+                                if isinstance(prev_, ast.If) and prev_.body and isinstance(prev_.body[-1], (ast.Continue, ast.Return, ast.Break, ast.Raise)):
+                                    alts_ = prev_.test.values if isinstance(prev_.test, ast.BoolOp) and isinstance(prev_.test.op, ast.Or) else [prev_.test]
+                                    if any(src(t_) in ('%s not in %s.__dict__' % (a_, o_), 'not hasattr(%s, %s)' % (o_, a_)) for t_ in alts_):
+                                        guarded = True
+                cur = par_
             r.check(guarded, '%s: %s is inside a try' % (q, what), node, construct=q, key='implicit ' + what.split(' ')[0],
                     msg='%s uses %s on data that comes from the statements (`%s`); for a malformed schema statement an unrelated built-in error '
                         'escapes instead of ParsingException / a metamodel exception; reachable via %s'
